@@ -22,6 +22,9 @@ CLAIMED = {
  "C10": ("§7 C10", "Every stream that interleaves version markers, replacing/appending/importing symbol tables (all max_id cases) and user values referencing boundary SIDs, up to L events, under five catalogs, in text and binary, is read by the real Reader and compared value-by-value (text, unknown-text SIDs, MaxID at each value, error placement) with the reference context machine.",
          "Trusts refsym/refbin/reftext; longer histories and other import shapes are not covered.",
          "explicit enumeration of event histories up to a depth replayed on the implementation, lock-step with a reference state machine"),
+ "C11": ("§7 C11", "Every shared-table set (all adjusted max_ids) x every short sequence of symbol usages drawn from inside/outside/overlapping those tables x four binary writer entry points is executed on the real writers; the bytes are decoded raw by the independent decoder and every clause of the property (declared imports, lowest-ID use, minimal locals, catalog dependence, fixed-table rejection and stickiness) is evaluated.",
+         "Trusts refbin/refsym; longer value sequences and larger tables are not covered.",
+         "explicit enumeration of configurations x operation sequences on the implementation, output judged by an independent decoder"),
  "C12": ("§7 C12", "Every Writer call sequence up to length L over a 14-call alphabet (legal and illegal), in four writer configurations, is executed on the real Writers: no panic, errors are sticky, output is deterministic, and whenever the final Finish returns nil the bytes are valid under an independent decoder and equal the stream a reference automaton builds from the successful calls. The whole sequence space below the bound is covered.",
          "Trusts the refwriter automaton and the independent decoders; sequences longer than L and calls outside the alphabet are not covered.",
          "explicit enumeration of all operation sequences up to a depth on the implementation, lock-step with a reference protocol automaton"),
